@@ -223,14 +223,14 @@ def run(ctx):
             return [('single', dict(common, MaxBatch=1, MaxOps=4, MaxWrites=3), 6000),
                     ('batch', dict(common, MaxBatch=2, MaxOps=3, MaxWrites=2, MaxTrunc=0), 4000)]
         deep = {'Min': [9, 12, 16, 21], 'Max': [37, 36, 32, 28], 'Epoch': [24, 25, 20, 28], 'Now': [37, 36, 32, 41]}[base]
-        return [('single', dict(common, MaxBatch=1, MaxOps=4, MaxWrites=3), None),
-                ('batch', dict(common, MaxBatch=2, MaxOps=3, MaxWrites=2), None),
-                ('deep', dict(common, MaxBatch=1, MaxOps=5, MaxWrites=4, PointPos=deep, MaxTrunc=0), 30000)]
+        return [('single', dict(common, MaxBatch=1, MaxOps=4, MaxWrites=3), 9000),
+                ('batch', dict(common, MaxBatch=2, MaxOps=3, MaxWrites=2), 9000),
+                ('deep', dict(common, MaxBatch=1, MaxOps=5, MaxWrites=4, PointPos=deep, MaxTrunc=0), 8000)]
 
     def actions(base):
         return ['Write', 'Reload', 'SetSGD', 'Truncate']
 
-    run_family(ctx, ['Min', 'Epoch', 'Max', 'Now'], mc_extra, gen_variants, actions, 1 if quick else 3)
+    run_family(ctx, ['Min', 'Epoch', 'Max', 'Now'], mc_extra, gen_variants, actions, 1 if quick else 2)
     ctx.rule = ('every TLC history of length MaxOps over write(batch of 1..2 points at 6 positions around the anchor)/reload/'
                 'UpdateRetentionPolicy(shard group duration 2,3,5 ticks)/TruncateShardGroups, per anchor (MinNanoTime, Unix 0, '
                 'MaxNanoTime, wall clock) and tick unit (1h/24h/7d, rotated by seed in quick, all in thorough), sampled by seed '
